@@ -13,6 +13,47 @@ def lchar(c):
     return f"'{c}'"
 
 
+def default_node_spellings():
+    """How MCNP_Object._generate_default_node spells a value as the token of the node it builds, OBSERVED by calling
+    it on probe values (since round 7; the first version read the first argument of every `return ValueNode(...)`
+    from the function's AST and raised a no-failing-input-found alarm when the two returns became one).
+
+    A probe that must be kept (None, a Jump) answers "default" when the token IS the probe; a value probe answers
+    "str(default)" when the token is exactly Python's str of the value (repr for a float: the shortest decimal that
+    reads back; the probes need 1, 2, 16 and 17 significant digits, both exponent signs and both notations);
+    anything else answers with the token itself, an exception with its class.  Distinct answers in probe order."""
+    from montepy.input_parser.mcnp_input import Jump
+    from montepy.mcnp_object import MCNP_Object
+
+    def token_of(value_type, v):
+        node = MCNP_Object._generate_default_node(value_type, v)
+        return node.token if hasattr(node, "token") else node._token
+
+    out = []
+    for v in (None, Jump()):
+        try:
+            tok = token_of(float, v)
+            ans = "default" if tok is v else f"other:{type(v).__name__}->{tok!r}"
+        except Exception as e:  # noqa: BLE001
+            ans = "raises:" + type(e).__name__
+        out.append(ans)
+    probes = [(float, x) for x in (0.1, 2.5, 1e-5, 1e21, 1e22, 1.0 / 3.0, 0.1 + 0.2, 123456789.123, 5e-324, -2.0e-7, 1.0e16, 3.0)]
+    probes += [(int, x) for x in (0, 7, -3, 10**20)] + [(float, 3), (str, "abc")]
+    for ty, v in probes:
+        try:
+            tok = token_of(ty, v)
+            if type(tok) is str and tok == str(v):
+                ans = "str(default)"
+            elif tok is v:
+                ans = "default"
+            else:
+                ans = f"other:{v!r}->{tok!r}"
+        except Exception as e:  # noqa: BLE001
+            ans = f"raises:{type(e).__name__}:{v!r}"
+        out.append(ans)
+    return list(dict.fromkeys(out))
+
+
 def generate(write):
     from montepy.input_parser.syntax_node import ValueNode
 
@@ -37,20 +78,8 @@ def generate(write):
     pat = "".join(re.sub(r"(?<!\\)#.*", "", line).strip() for line in pat.splitlines())
     pat = re.sub(r"\s+", "", pat)
     body += f"def scientificFinder : String := {json.dumps(pat)}\n"
-    # MCNP_Object._generate_default_node: how a node made from a value (no token at all) spells that value.
-    # The expression handed to ValueNode for a non-None default, as source text from the AST.
-    import ast
-    import inspect
-    import textwrap
-
-    from montepy.mcnp_object import MCNP_Object
-
-    fn = ast.parse(textwrap.dedent(inspect.getsource(MCNP_Object._generate_default_node))).body[0]
-    spellings = []
-    for node in sorted((n for n in ast.walk(fn) if isinstance(n, ast.Return)), key=lambda n: n.lineno):
-        if isinstance(node, ast.Return) and isinstance(node.value, ast.Call) and getattr(node.value.func, "id", "") == "ValueNode":
-            spellings.append(ast.unparse(node.value.args[0]))
-    body += "/-- MCNP_Object._generate_default_node: first argument of every `return ValueNode(...)`, in source order -/\n"
-    body += f"def defaultNodeSpellings : List String := {json.dumps(spellings)}\n"
+    body += "/-- MCNP_Object._generate_default_node OBSERVED on probe values: how the token of the node it builds relates\n"
+    body += "    to the value handed in, first for None and a Jump, then for floats, ints and a string; distinct answers -/\n"
+    body += f"def defaultNodeSpellings : List String := {json.dumps(default_node_spellings())}\n"
     body += "\nend MontePyVerif.Gen\n"
     write("ValueFormat.lean", body)
